@@ -6,6 +6,7 @@
    modsqrt <a>
    stdaddr <net> <script_type> <encoding> <data hex>      the standard address over the FROZEN specification table
                                                           (Model/SpecNetworks.v; frozen_address_by_name), not the regenerated one
+   addrx ... / sess ...                                   outside the model (answer OOS): harness/props/c04.py judges them
    entry = Key | HDKey; fmt = int | dec | hex | bytes | point (arg "x,y"); booleans 1/0; carg N/1/0 *)
 module BZ = Z
 open C04_model
@@ -132,6 +133,8 @@ let dispatch = function
       (match st_of st, enc_of enc with
        | Some s, Some e -> (match spec_address (net_of net) s e (bytes_of_hex data) with Some a -> str_of_bytes a | None -> "NONE")
        | _ -> "BADREQ")
+  (* argument combinations (addrx) and histories on one key object (sess) are judged by the property-level oracle only *)
+  | "addrx" :: _ | "sess" :: _ -> "OOS"
   | _ -> "BADREQ"
 
 let () = main dispatch
